@@ -1,9 +1,164 @@
 import Driver.Proto
+import PolyVerif.Model.Tree
 
 namespace Driver.C16
+open PolyVerif PolyVerif.Tree PolyVerif.Gen.geometry
 
-/-- one request -> one answer line; `none` = unknown op / malformed -/
-def handle (_op : String) (_args : List String) : Option String := none
+abbrev P := Prim Float
+abbrev T := Oct (AABB Float) (Elem Float)
+
+def v3Of : List Float → Option (V3 Float)
+  | [a, b, c] => some ⟨a, b, c⟩
+  | _ => none
+
+def chunks (k : Nat) : Nat → List Float → List (List Float)
+  | 0, _ => []
+  | n + 1, fs => fs.take k :: chunks k n (fs.drop k)
+
+def primOf (kind : String) (fs : List Float) : Option P :=
+  match kind, fs with
+  | "pt", [a, b, c] => some (.point ⟨a, b, c⟩)
+  | "seg", [a, b, c, d, e, f] => some (.seg ⟨a, b, c⟩ ⟨d, e, f⟩)
+  | "box", [a, b, c, d, e, f] => some (.box ⟨⟨a, b, c⟩, ⟨d, e, f⟩⟩)
+  | _, _ => none
+
+def arity (kind : String) : Nat := if kind == "pt" then 3 else 6
+
+/-- parse `<depth|auto> <kind> <n> <n·arity floats> <rest floats>` -/
+def parseTree (args : List String) : Option (Option T × List Float) := do
+  match args with
+  | dtok :: kind :: ntok :: rest =>
+    let n ← nat? ntok
+    let fs ← floats? rest
+    let k := arity kind
+    if fs.length < n * k then none
+    let prims ← (chunks k n fs).mapM (primOf kind)
+    let depth ← if dtok == "auto" then some (octreeDepthFromCount n) else nat? dtok
+    pure (newOctreeWithDepth prims depth, fs.drop (n * k))
+  | _ => none
+
+def ids (l : List Nat) : String :=
+  if l.isEmpty then "-" else " ".intercalate (l.map toString)
+
+/-- parse `<n> id…` from the front of a token list -/
+def natList (ts : List String) : Option (List Nat × List String) := do
+  match ts with
+  | ntok :: rest =>
+    let n ← nat? ntok
+    if rest.length < n then none
+    let xs ← (rest.take n).mapM nat?
+    pure (xs, rest.drop n)
+  | _ => none
+
+def sortNat (l : List Nat) : List Nat := (l.toArray.qsort (· < ·)).toList
+
+def bbTo (b : AABB Float) : List Float := [b.center.x, b.center.y, b.center.z, b.extents.x, b.extents.y, b.extents.z]
+
+def handle (op : String) (args : List String) : Option String := do
+  match op with
+  | "c16.depth" => do
+      let n ← nat? (← args.head?)
+      pure (toString (octreeDepthFromCount n))
+  | "c16.aabb.ray" => do
+      let fs ← floats? args
+      match fs with
+      | [a, b, c, d, e, f, ox, oy, oz, dx, dy, dz, mn, mx] =>
+        pure (boolStr (intersectsRayInRange (⟨⟨a, b, c⟩, ⟨d, e, f⟩⟩ : AABB Float) ⟨ox, oy, oz⟩ ⟨dx, dy, dz⟩ mn mx))
+      | _ => none
+  | "c16.oct.bounds" => do
+      let (t, _) ← parseTree args
+      match t with
+      | none => pure "nil"
+      | some t => pure (fsHex (bbTo t.bounds))
+  | "c16.oct.containing" => do
+      let (t, q) ← parseTree args
+      let v ← v3Of q
+      match t with
+      | none => pure "nil"
+      | some t => pure (ids (elementsContainingPoint t v))
+  | "c16.oct.within" => do
+      let (t, q) ← parseTree args
+      let v ← v3Of (q.take 3)
+      let r ← (q.drop 3).head?
+      match t with
+      | none => pure "nil"
+      | some t => pure (ids (elementsWithinRange t v r))
+  | "c16.oct.ray" => do
+      let (t, q) ← parseTree args
+      match t, q with
+      | none, _ => pure "nil"
+      | some t, [ox, oy, oz, dx, dy, dz, mn, mx] => pure (ids (elementsIntersectingRay t ⟨ox, oy, oz⟩ ⟨dx, dy, dz⟩ mn mx))
+      | _, _ => none
+  | "c16.oct.traverse" => do
+      let (t, q) ← parseTree args
+      match t, q with
+      | none, _ => pure "nil"
+      | some t, [ox, oy, oz, dx, dy, dz, mn, mx] => pure (ids (traverseIntersectingRay t ⟨ox, oy, oz⟩ ⟨dx, dy, dz⟩ mn mx))
+      | _, _ => none
+  | "c16.oct.closest" => do       -- answer: squared distance only (ties: any of the nearest elements)
+      let (t, q) ← parseTree args
+      let v ← v3Of q
+      match t with
+      | none => pure "nil"
+      | some t =>
+        match closestPoint t v with
+        | none => pure "none"
+        | some (_, pt) => pure (fHex (pt.DistanceSquared v))
+  | "c16.oct.closestu" => do      -- the nearest element is unique: id, squared distance, point
+      let (t, q) ← parseTree args
+      let v ← v3Of q
+      match t with
+      | none => pure "nil"
+      | some t =>
+        match closestPoint t v with
+        | none => pure "none"
+        | some (i, pt) => pure (s!"{i} " ++ fsHex [pt.DistanceSquared v, pt.x, pt.y, pt.z])
+  /- oracles: the statement "the index answers what the exhaustive scan answers", evaluated on the
+     implementation's own answers -/
+  | "c16.holds.eq_scan" => do     -- args: <what> <n1> tree-ids… <n2> scan-ids…   equal as multisets
+      let (a, rest) ← natList (args.drop 1)
+      let (b, rest') ← natList rest
+      if !rest'.isEmpty then none
+      pure (boolStr (sortNat a == sortNat b))
+  | "c16.holds.closest" => do     -- args: id d2 px py pz cx cy cz n d2_0 … d2_{n-1}
+      match args with
+      | idt :: rest =>
+        let i ← nat? idt
+        let fs ← floats? (rest.take 7)
+        let n ← nat? (← (rest.drop 7).head?)
+        let ds ← floats? (rest.drop 8)
+        if ds.length ≠ n then none
+        match fs with
+        | [d2, px, py, pz, cx, cy, cz] =>
+          let isMin := ds.all (fun d => d2 ≤ d)
+          let own := match ds[i]? with | some d => d == d2 | none => false
+          pure (boolStr (isMin && own && px == cx && py == cy && pz == cz))
+        | _ => none
+      | _ => none
+  | "c16.holds.bvh" => do         -- args: <which> flagIndex distIndex flagList distList
+      match args.drop 1 with
+      | [fa, da, fb, db] =>
+        let da ← hexF? da; let db ← hexF? db
+        pure (boolStr (fa == fb && (fa == "false" || da == db)))
+      | _ => none
+  | "c16.holds.bvh_scan" => do    -- args: <which> flag dist n (flag_i dist_i)…  : nearest of the individual hits
+      match args.drop 1 with
+      | fa :: da :: ntok :: rest =>
+        let da ← hexF? da
+        let n ← nat? ntok
+        if rest.length ≠ 2 * n then none
+        let rec go : List String → Option (List Float)
+          | f :: d :: more => do
+            let d ← hexF? d
+            let tl ← go more
+            pure (if f == "true" then d :: tl else tl)
+          | [] => some []
+          | _ => none
+        let hits ← go rest
+        if hits.isEmpty then pure (boolStr (fa == "false"))
+        else pure (boolStr (fa == "true" && hits.all (fun d => da ≤ d) && hits.any (fun d => d == da)))
+      | _ => none
+  | _ => none
 
 end Driver.C16
 
